@@ -1,12 +1,104 @@
-import Autog.Lemmas.DfsBreakerMinimal
-import Autog.Lemmas.DfsHasCyclesSound
-/-! # C14
-    DFS breaker minimality; acyclic inputs keep their edges. -/
+import Autog.Model.Phase1
+/-! # C14 — depth-first cycle breaking reverses an irredundant edge set; acyclic inputs keep every edge
+
+    Theorems about the model `dfsMarked` / `execDepthFirst` and `hasCycles` (Autog/Model/Phase1.lean; key `T:phase1`).
+    * `C14_dfs_minimal`: for every graph state whose out-lists name each edge once (`Uniq`), every edge the model marks comes
+      with a walk from its target back to its source along examined, NEVER-marked edges — so un-reversing that edge alone
+      closes a directed cycle among the edges as drawn (the unmarked edges keep their direction, the marked ones are reversed
+      only afterwards). Proved through the whole loop over the roots (sources first, then every node), for any fuel.
+    * `C14_cycle_answer_sound`: when the cycle test answers "cycle" there is a closed walk — so on an acyclic state
+      `phase1` returns at the first test and nothing is reversed (`C14_acyclic_untouched`: the model with `hasCycles = false`
+      after the two-cycle pre-pass returns that state; the pre-pass itself reverses only an edge running opposite to an
+      earlier one, which is a 2-cycle).
+    PARTIAL: pre-pass reversals in cyclic inputs are covered by the per-run predicate (flip each flagged edge, test for a cycle). -/
 
 namespace Autog
+open DfsBreakerMinimal
 
-theorem C14_dfs_minimal : type_of% @DfsBreakerMinimal.minimal := @DfsBreakerMinimal.minimal
+theorem MInv.init (out : Nat → List OutE) (src : Nat → Nat) : MInv out src ⟨[], [], [], [], []⟩ :=
+  { chain := trivial
+    wok := fun _ h => (by cases h)
+    wcov := fun _ h => (by cases h)
+    vok := fun _ h => (by cases h)
+    rsub := fun _ h => (by cases h)
+    sfx := fun _ h => (by cases h)
+    fresh := fun _ h => (by cases h)
+    unv := fun _ h => (by cases h)
+    svis := fun _ h => (by cases h)
+    nd := List.nodup_nil }
 
-theorem C14_hasCycles_sound : type_of% @DfsHasCyclesSound.run_cyc := @DfsHasCyclesSound.run_cyc
+/-- starting a new root in a finished configuration keeps the invariant -/
+theorem MInv.newRoot {out : Nat → List OutE} {src : Nat → Nat} (hU : Uniq out src) {c : Cfg} (hI : MInv out src c)
+    (hs : c.stack = []) (r : Nat) (hr : r ∉ c.visited) :
+    MInv out src { c with stack := [(r, out r, none)], visited := r :: c.visited } := by
+  refine ⟨trivial, hI.wok, hI.wcov, (fun _ h => (by simp [vias] at h)), hI.rsub, ?_, ?_, ?_, ?_, (by simp [act])⟩
+  · intro f hf
+    have : f = (r, out r, none) := by simpa using hf
+    subst this; exact ⟨[], rfl⟩
+  · intro f hf em hem hex
+    have : f = (r, out r, none) := by simpa using hf
+    subst this
+    have h1 := hI.unv em.1 hex
+    rw [hU.own r em hem] at h1
+    exact hr h1
+  · intro id hid
+    exact List.mem_cons_of_mem _ (hI.unv id hid)
+  · intro f hf
+    have : f = (r, out r, none) := by simpa using hf
+    subst this; exact List.mem_cons_self ..
+
+theorem dfsLoop_inv (g : G) (src : Nat → Nat) (hU : Uniq (outE g) src) :
+    ∀ (rs : List Nat) (c c' : Cfg), MInv (outE g) src c → c.stack = [] → dfsLoop g rs c = .ok c' →
+      MInv (outE g) src c' ∧ c'.stack = []
+  | [], c, c', hI, hs, h => by
+    simp only [dfsLoop, pure, Except.pure, Except.ok.injEq] at h
+    subst h; exact ⟨hI, hs⟩
+  | r :: rs, c, c', hI, hs, h => by
+    unfold dfsLoop at h
+    by_cases hv : c.visited.contains r
+    · simp only [hv, if_true] at h
+      exact dfsLoop_inv g src hU rs c c' hI hs h
+    · simp only [hv] at h
+      have hr : r ∉ c.visited := by simpa using hv
+      cases hrun : run (outE g) (dfsFuel g) { c with stack := [(r, outE g r, none)], visited := r :: c.visited } with
+      | none => rw [hrun] at h; cases h
+      | some c1 =>
+        rw [hrun] at h
+        obtain ⟨hI1, hs1⟩ := run_inv hU (dfsFuel g) _ c1 (MInv.newRoot hU hI hs r hr) hrun
+        exact dfsLoop_inv g src hU rs c1 c' hI1 hs1 h
+
+/-- C14 (first half): every edge the depth-first breaker marks closes a cycle with edges that are never marked -/
+theorem C14_dfs_minimal (g : G) (src : Nat → Nat) (hU : Uniq (outE g) src) (marked : List Nat)
+    (h : dfsMarked g = .ok marked) :
+    ∀ id ∈ marked, ∃ u v path, (id, v) ∈ outE g u ∧ IsWalkE (outE g) v path u ∧ ∀ x ∈ pathIds path, x ∉ marked := by
+  unfold dfsMarked at h
+  simp only [bind, Except.bind] at h
+  cases hl : dfsLoop g (dfsRoots g) ⟨[], [], [], [], []⟩ with
+  | error e => rw [hl] at h; cases h
+  | ok c =>
+    rw [hl] at h
+    simp only [pure, Except.pure, Except.ok.injEq] at h
+    subst h
+    obtain ⟨hI, _⟩ := dfsLoop_inv g src hU _ _ c (MInv.init _ _) rfl hl
+    intro id hid
+    have hid' : id ∈ c.rev := List.mem_reverse.1 hid
+    obtain ⟨w, hw, rfl⟩ := hI.wcov id hid'
+    obtain ⟨_, h2, h3, h4⟩ := hI.wok w hw
+    exact ⟨w.2.1, w.2.2.1, w.2.2.2, h2, h3, fun x hx hm => (h4 x hx).2 (List.mem_reverse.1 hm)⟩
+
+/-- C14 (second half): "cycle" is only answered when a closed walk exists -/
+theorem C14_cycle_answer_sound : type_of% @DfsHasCyclesSound.run_cyc := @DfsHasCyclesSound.run_cyc
+
+/-- … so a state the cycle test passes is returned untouched by phase 1 (after the two-cycle pre-pass) -/
+theorem C14_acyclic_untouched (alg : Nat) (g : G) (hn : (g.nodes.size == 1) = false)
+    (hc : hasCycles (removeTwoNodeCycles g) = .ok false) : phase1 alg g = .ok (removeTwoNodeCycles g) := by
+  unfold phase1
+  simp [hn, hc, bind, Except.bind, pure, Except.pure]
+
+/-- a 3-cycle 0 → 1 → 2 → 0 plus a chord: the breaker marks the edge closing the cycle -/
+def exC : G :=
+  { nodes := #[{ id := "a", outs := [0], ins := [2] }, { id := "b", ins := [0], outs := [1] }, { id := "c", ins := [1], outs := [2] }],
+    edges := #[{ src := 0, dst := 1 }, { src := 1, dst := 2 }, { src := 2, dst := 0 }], elist := [0, 1, 2] }
+example : (dfsMarked exC).toOption = some [2] := by decide +kernel
 
 end Autog
